@@ -861,4 +861,15 @@ def chaseHit (cfg : Cfg) (secretLen : Nat) (w : Writer) (baseReady : Bool) (alia
        | _, _ => none)
   | _, _ => none
 
+/-! ### the AS112 empty zones (`as112.ServeDNS` / `serveWire`) -/
+
+/-- the answer for a name strictly below one of the empty zones: NXDOMAIN,
+authoritative, the zone's SOA in the authority section, and the header and
+QUESTION (name spelling, type AND class) of the request — on the decoded body
+through `SetReply`, on the wire body field by field. -/
+def as112Reply (q' : Query) : Msg :=
+  { id := q'.id, opcode := q'.opcode, rcode := 3,
+    fl := { qr := true, aa := true, rd := q'.rd, ra := true, cd := q'.cd },
+    question := some q'.question, ns := [.data .other 0 0 0] }
+
 end SdnsVerif.Model.Edns
